@@ -66,6 +66,34 @@ def read_colour(s):
     return tuple(max(x) for x in csscolor.accept_sets(p.rgb))
 
 
+_RGB_ALPHA = __import__("re").compile(r"^rgba?\(\s*(\d+)[\s,]+(\d+)[\s,]+(\d+)\s*[,/]\s*([0-9.]+)\s*\)$", __import__("re").I)
+
+
+def effective_text(text, bg_rgb):
+    """-> (rgb or None, translucent?) : the text colour as it is seen over the rule's background."""
+    if text is None:
+        return None, False
+    try:
+        p = csscolor.parse(text)
+        fg, alpha = p.rgb, p.alpha
+    except csscolor.NotCSS:
+        m = _RGB_ALPHA.match(text.strip())   # rgb(r, g, b, a) / rgb(r g b / a): alpha-carrying rgb() forms
+        if not m:
+            return None, False
+        from fractions import Fraction
+        fg, alpha = tuple(Fraction(int(m.group(i))) for i in (1, 2, 3)), Fraction(m.group(4))
+        if any(v > 255 for v in fg) or alpha > 1:
+            return None, False
+    if alpha == 1:
+        return tuple(max(x) for x in csscolor.accept_sets(fg)), False
+    if bg_rgb is None:
+        return None, True
+    return tuple(int(float(c) + 0.5) for c in csscolor.blend(fg, alpha, bg_rgb)), True
+
+
+TRANSLUCENT_BAND = 0.05   # a composite may legitimately be off by 1.5 units per channel: verdicts within 5% of the target are not judged
+
+
 class Model:
     """Reference reading of the input sheet."""
 
@@ -85,8 +113,9 @@ class Model:
                 braw = self.default_bg
             tres = cssmodel.resolve(traw, self.vars)
             bres = cssmodel.resolve(braw, self.vars)
-            self.info[r.index] = {"text_raw": traw, "bg_raw": braw, "text": tres, "bg": bres,
-                                  "t_rgb": read_colour(tres) if tres else None, "b_rgb": read_colour(bres) if bres else None}
+            b_rgb = read_colour(bres) if bres else None
+            t_rgb, transl = effective_text(tres, b_rgb)
+            self.info[r.index] = {"text_raw": traw, "bg_raw": braw, "text": tres, "bg": bres, "t_rgb": t_rgb, "b_rgb": b_rgb, "translucent": transl}
 
     def var_users(self):
         """var name -> list of (rule index, bg text) of rules whose colour references it (first level)."""
@@ -220,8 +249,9 @@ def judge(rec, lib, css, st, fname, stdout, stderr, out_css, cards, feats, case)
             if api != (c["after"], True):
                 rec.violation(f"rule {r.selector!r}: card says {c['before']!r} -> {c['after']!r} on {c['bg']!r}, but the API returns {api!r} for mode={st['mode']} "
                               f"very_readable={st['premium']}", rcase)
-            before = read_colour(c["before"])
-            if before is None or (inf["t_rgb"] is not None and before != inf["t_rgb"]):
+            before, _tr = effective_text(c["before"], bg)
+            close = before is not None and inf["t_rgb"] is not None and all(abs(x - y) <= (2 if inf["translucent"] else 0) for x, y in zip(before, inf["t_rgb"]))
+            if before is None or (inf["t_rgb"] is not None and not close):
                 # legitimate only for a shared custom property already adjusted by an earlier rule
                 earlier = {read_colour(cc["after"]) for cc in cards}
                 if not (cssmodel.var_names(inf["text_raw"] or "") and before in earlier):
@@ -248,7 +278,9 @@ def judge(rec, lib, css, st, fname, stdout, stderr, out_css, cards, feats, case)
                 rec.violation(f"rule {r.selector!r} is counted as already readable but its colours are {inf['text']!r} on {inf['bg']!r} (not readable CSS colours)", rcase)
                 continue
             ratio = wcag.ratio(inf["t_rgb"], inf["b_rgb"])
-            if True not in wcag.verdicts(ratio, target):
+            if inf["translucent"] and abs(ratio / target - 1) <= TRANSLUCENT_BAND:
+                rec.count("translucent_in_band_not_judged")
+            elif True not in wcag.verdicts(ratio, target):
                 # a shared custom property adjusted by an earlier rule may legitimately have made it readable
                 eff = cssmodel.resolve(orule.value("color"), out_vars)
                 eff_rgb = read_colour(eff) if eff else None
